@@ -32,6 +32,18 @@ Notation "x <- m ;; k" := (bind m (fun x => k)) (at level 61, m at next level, r
 Notation "' pat <- m ;; k" := (bind m (fun x => match x with pat => k end))
   (at level 61, pat pattern, m at next level, right associativity).
 
+(* for i := a; i < a + cnt; i++ { s = f i s } *)
+Fixpoint for_loopM {S : Type} (cnt : nat) (i : Z) (f : Z -> S -> outcome S) (s : S) : outcome S :=
+  match cnt with
+  | O => Ok s
+  | S c => bind (f i s) (fun s' => for_loopM c (i + 1)%Z f s')
+  end.
+Fixpoint for_loop {S : Type} (cnt : nat) (i : Z) (f : Z -> S -> S) (s : S) : S :=
+  match cnt with
+  | O => s
+  | S c => for_loop c (i + 1)%Z f (f i s)
+  end.
+
 Definition is_panic {A} (m : outcome A) : bool :=
   match m with Panic => true | _ => false end.
 Definition is_ok {A} (m : outcome A) : bool :=
